@@ -4,6 +4,8 @@ import (
 	"fmt"
 	"io"
 	"math/rand"
+	"regexp"
+	"sort"
 	"strings"
 
 	"github.com/llir/llvm/ir"
@@ -299,6 +301,16 @@ func (h *hstate) apply(s hstep) {
 		t := &metadata.Tuple{MetadataID: -1, Fields: []metadata.Field{&metadata.String{Value: fmt.Sprintf("s%d", s.N)}}}
 		m.MetadataDefs = append(m.MetadataDefs, t)
 		nd.Nodes = append(nd.Nodes, t)
+	case "mdprepend":
+		// a metadata definition put in front of the existing ones
+		t := &metadata.Tuple{MetadataID: -1, Fields: []metadata.Field{&metadata.String{Value: fmt.Sprintf("front%d", s.N)}}}
+		m.MetadataDefs = append([]metadata.Definition{t}, m.MetadataDefs...)
+		nd, ok := m.NamedMetadataDefs["front"]
+		if !ok {
+			nd = &metadata.NamedDef{Name: "front"}
+			m.NamedMetadataDefs["front"] = nd
+		}
+		nd.Nodes = append(nd.Nodes, t)
 	case "attach":
 		f := h.fn(s.F)
 		b := h.blk(f, s.B)
@@ -424,9 +436,11 @@ func genHistory(rng *rand.Rand, n int, fenced bool) []hstep {
 	steps = append(steps, hstep{Op: "func", Name: name(false), N: rng.Intn(4), Kind: rng.Intn(8), A: rng.Intn(2)})
 	funcs = append(funcs, fshape{blocks: []int{0}})
 	for len(steps) < n {
-		r := rng.Intn(110)
+		r := rng.Intn(111)
 		fi := rng.Intn(len(funcs))
 		switch {
+		case r >= 109:
+			steps = append(steps, hstep{Op: "mdprepend", N: rng.Intn(100)})
 		case r >= 108:
 			steps = append(steps, hstep{Op: "typedef", Name: name(false)})
 		case r >= 105:
@@ -593,6 +607,14 @@ func c14Judge(r *fw.Rec, tag string, steps []hstep, obs []hobs, ref string) bool
 			What: fmt.Sprintf("history with observers fails where the same history alone does not (at %d): %s", pAt, firstLine(pMsg))})
 		return false
 	}
+	if got != ref && mdRenumbered(got) == mdRenumbered(ref) {
+		// a predicate-defined family: the two texts differ in the numbers of the
+		// metadata definitions only (same graph after renumbering by first
+		// occurrence): IDs handed out by an earlier print are kept like explicit IDs
+		r.Violate(fw.Violation{Key: "history-differs/class:metadata-ids-kept-from-an-earlier-print", Input: histText(steps, obs),
+			What: "final printed module differs from the same history without observers in its metadata numbering only (" + tag + "): " + firstDiffLines(ref, got), Expected: ref, Observed: got})
+		return false
+	}
 	if got != ref {
 		var kinds []string
 		for _, o := range obs {
@@ -708,4 +730,31 @@ func c14Witnesses(r *fw.Rec) {
 		}
 		r.Tally("witness", "holds:"+w.key)
 	}
+}
+
+var reMDNum = regexp.MustCompile(`!([0-9]+)`)
+
+// mdRenumbered renumbers the metadata IDs of a printed module by first
+// occurrence and sorts the definition lines, so that two texts that differ in
+// metadata numbering (and therefore in the order of the definitions) only
+// compare equal.
+func mdRenumbered(text string) string {
+	ids := map[string]int{}
+	out := reMDNum.ReplaceAllStringFunc(text, func(tok string) string {
+		if _, ok := ids[tok]; !ok {
+			ids[tok] = len(ids)
+		}
+		return fmt.Sprintf("!<%d>", ids[tok])
+	})
+	lines := strings.Split(out, "\n")
+	var defs, rest []string
+	for _, l := range lines {
+		if strings.HasPrefix(l, "!<") {
+			defs = append(defs, l)
+		} else {
+			rest = append(rest, l)
+		}
+	}
+	sort.Strings(defs)
+	return strings.Join(rest, "\n") + "\n" + strings.Join(defs, "\n")
 }
